@@ -321,6 +321,9 @@ func c20Constructors(x *core.Ctx, p ast.Path) {
 	c20List(x, "constructed-list", list)
 }
 
+// c20Seen: the error objects already marked by c20Error (the same object may be checked twice, e.g. alone and in its list).
+var c20Seen = map[*gqlerror.Error]bool{}
+
 // c20Error checks one error object from an entry point. srcNames: the named sources the input came from.
 func c20Error(x *core.Ctx, entry string, err error, srcNames []string, isValidation bool) {
 	if err == nil {
@@ -337,6 +340,15 @@ func c20Error(x *core.Ctx, entry string, err error, srcNames []string, isValidat
 	if !ok {
 		x.Distinct("entry-template", entry+"|plain:"+firstWords(templateOf(msg), 4))
 		return
+	}
+	// every error object is its own: what a server wrote into the extensions of an earlier error (an error code, a request
+	// id) must not show up here; the mark is left on every error this monitor has seen
+	if _, marked := ge.Extensions["verif-mark"]; marked && !c20Seen[ge] {
+		x.Violate(entry+":shares-extensions-with-an-earlier-error", fmt.Sprintf("%v", ge.Extensions), "its own extensions")
+	}
+	if ge.Extensions != nil {
+		ge.Extensions["verif-mark"] = entry
+		c20Seen[ge] = true
 	}
 	tmpl := firstWords(templateOf(ge.Message), 6)
 	x.Distinct("entry-template", entry+"|"+tmpl)
@@ -467,11 +479,13 @@ func c20Check(x *core.Ctx, c *core.Case) {
 		if c.Get("grammar") == "query" {
 			_, err := parser.ParseQuery(src)
 			c20Error(x, "parse-query", err, names, false)
-			_, err = parser.ParseQueryWithTokenLimit(src, 3)
-			if err != nil && strings.HasPrefix(err.Error(), "exceeded token limit") {
-				c20Error(x, "limit", err, nil, false)
-			} else {
-				c20Error(x, "parse-query", err, names, false)
+			for _, lim := range []int{3, 1, -1} {
+				_, err = parser.ParseQueryWithTokenLimit(src, lim)
+				if err != nil && strings.Contains(err.Error(), "exceeded token limit") {
+					c20Error(x, "limit", err, names, false) // a plain error today; if it ever carries a location, the location obliges
+				} else {
+					c20Error(x, "parse-query", err, names, false)
+				}
 			}
 			// the convenience entry point (unnamed source)
 			if _, errs := gqlparser.LoadQuery(c20TinySchema(), c.Get("src")); len(errs) > 0 {
@@ -483,11 +497,13 @@ func c20Check(x *core.Ctx, c *core.Case) {
 		} else {
 			_, err := parser.ParseSchema(src)
 			c20Error(x, "parse-schema", err, names, false)
-			_, err = parser.ParseSchemaWithLimit(src, 3)
-			if err != nil && strings.HasPrefix(err.Error(), "exceeded token limit") {
-				c20Error(x, "limit", err, nil, false)
-			} else {
-				c20Error(x, "parse-schema", err, names, false)
+			for _, lim := range []int{3, 1, -1} {
+				_, err = parser.ParseSchemaWithLimit(src, lim)
+				if err != nil && strings.Contains(err.Error(), "exceeded token limit") {
+					c20Error(x, "limit", err, names, false)
+				} else {
+					c20Error(x, "parse-schema", err, names, false)
+				}
 			}
 			_, err = gqlparser.LoadSchema(src)
 			c20Error(x, "load", err, []string{src.Name, "prelude.graphql"}, false)
